@@ -46,6 +46,26 @@ def run(tier):
                 meas = [c % impl.W2 + impl.W2 * rng.randrange(2) for c in inp["codes"]]
                 add(n, conn, meas, [[1, inp["program"]]])          # the state itself (up to the re-drawn signs)
                 add(n, conn, meas, [[1, rng.choice(progs)]])
+    # swaps are the rare structural feature of the shipped circuits (150 tokens in 5962 lines): the graph state of every table line whose circuit contains
+    # a swap is measured through a re-signed presentation of its own group, on that line's connectivity, for the state itself and for a generic state
+    L_ = impl.lib()
+    n_before_swaps = len(jobs)
+    for inp in sweep.inputs_table_graphs(L_):
+        n, conn = inp["n"], inp["only_conn"]
+        try:
+            text = L_.circuit_lookup.stabilizer_circuit_lookup(n, conn, inp["rep"][2]).circuit_string
+        except Exception:
+            continue
+        if "swap" not in text:
+            continue
+        layer = impl.random_local_layer(n, rng)
+        codes = impl.remix(impl.apply_gates_codes(layer, inp["codes"]), rng)
+        meas = [c % impl.W2 + impl.W2 * rng.randrange(2) for c in codes]
+        prog = inp["program"] + layer
+        other = [["h", q, -1] for q in range(n) if rng.random() < 0.5] + [["cx", q, (q + 1) % n] for q in range(n) if rng.random() < 0.4] + [["s", q, -1] for q in range(n) if rng.random() < 0.5]
+        add(n, conn, meas, [[1, prog]])
+        add(n, conn, meas, [[2, prog], [1, other]])
+    ck.cov["scenarios_for_table_lines_with_swaps"] = len(jobs) - n_before_swaps
     # textbook states (GHZ, clusters, star, Y-frame states, AME): measured through their own group with re-drawn signs, on every connectivity
     for n in range(2, 7):
         for name, prog in sweep.named_states(n):
